@@ -1541,6 +1541,11 @@ impl<'p, 'a> Evaluator<'a, 'p> {
                 return Err(self.report_error(EvalErrorKind::StackOverflow));
             }
 
+            #[cfg(feature = "verif-hooks")]
+            if self.program.verif_consume_fuel() {
+                return Err(self.report_error(EvalErrorKind::StackOverflow));
+            }
+
             self.program.maybe_gc();
         }
 
